@@ -179,3 +179,19 @@ Definition step_safe (slots : list slot) (stp : step) : bool :=
   end.
 
 Definition prog_safe (slots : list slot) (prog : list step) : bool := forallb (step_safe slots) prog.
+
+(* ---- the ledger: what has become of a task once a step over its slot has let the procedure continue ----- *)
+Definition fin_of_done (s : tstate) : fin :=
+  match s with TDoneOk => FOk | TDoneExc => FExc | TDoneCancelled => FCancelled | _ => FNever end.
+
+(* None = the task is still running *)
+Definition task_after (r : routine) (stp : step) (s : tstate) : option fin :=
+  match stp with
+  | CancelAwait _ g _ =>
+      if is_done s then Some (fin_of_done s)
+      else match after_cancel r s with FNever => None | f => Some f end
+  | WaitFor _ g _ => if is_done s then Some (fin_of_done s) else Some (left_alone s)
+  | Opaque _ | Mark _ => if is_done s then Some (fin_of_done s) else None
+  end.
+
+Definition ended (o : option fin) : bool := match o with Some _ => true | None => false end.
